@@ -2,23 +2,28 @@ package corebgp
 
 import (
 	"fmt"
+	"sync/atomic"
 )
 
 // Logger is a log.Print-compatible function
 type Logger func(...interface{})
 
 var (
-	logger Logger = nil
+	logger atomic.Pointer[Logger]
 )
 
 // SetLogger enables logging with the provided Logger.
 func SetLogger(l Logger) {
-	logger = l
+	if l == nil {
+		logger.Store(nil)
+		return
+	}
+	logger.Store(&l)
 }
 
 func log(v ...interface{}) {
-	if logger != nil {
-		logger(v...)
+	if l := logger.Load(); l != nil {
+		(*l)(v...)
 	}
 }
 
